@@ -73,19 +73,30 @@ def advance_before_read(ctx, db):
         for tr in trs:
             if not live(tr):
                 continue
+            env = {}
             for i, it in enumerate(tr):
+                if it.k == 'decl' and it.get('init') is not None and re.fullmatch(r'local:\w+(#\d+)?', it.get('var') or '') and not it.get('ref'):
+                    env[it['var']] = _lin(it['init'], env)
                 if it.k == 'write' and field_of(it) == REGPOS:
                     nw += 1
                     op_ = it.get('op') or '='
                     fwd = op_ == '++' or (op_ == '+=' and (it.get('const') or 0) >= 1)
                     if op_ == '=':
                         rhs = it.get('rhs') or ''
+                        upto = i
+                        m_ = re.fullmatch(r'call\(([^()]*)\)', rhs)
+                        if m_ and m_.group(1) != 'std::max':
+                            # the new position is computed by an expanded helper: take what it returned on this path
+                            j_ = next((j for j in range(i - 1, -1, -1) if tr[j].k == 'leave' and norm(tr[j].ev.get('callee') or '') == norm(m_.group(1))), None)
+                            r_ = next((k for k in range(j_ - 1, -1, -1) if tr[k].k == 'return' and tr[k].get('depth') == tr[j_].get('depth', 0) + 1), None) if j_ is not None else None
+                            if r_ is not None and tr[r_].get('path'):
+                                rhs, upto = tr[r_]['path'], r_
                         cands = [rhs]
-                        mx = next((c for c in reversed(tr[:i]) if c.k == 'call' and norm(c.get('callee') or '') == 'std::max'), None)
+                        mx = next((c for c in reversed(tr[:upto]) if c.k == 'call' and norm(c.get('callee') or '') == 'std::max'), None)
                         if 'std::max' in rhs and mx is not None:
                             cands = [a.get('path') or '' for a in mx.get('args', [])]
                         for c_ in cands:
-                            l_ = _lin(c_, {})
+                            l_ = _lin(c_, env)
                             if l_ is not None and l_.get('REG') == 1 and l_.get('', 0) >= 1 and set(l_) <= {'REG', ''}:
                                 fwd = True
                     if not fwd:
@@ -107,7 +118,7 @@ def advance_before_read(ctx, db):
 
 
 def _canon(a):
-    a = re.sub(r'^(local|param):\w+(\.|->)_pos$', 'REG._pos', a)
+    a = re.sub(r'^((local|param):\w+(#\d+)?|this->_regs\[\]|\*\((local:\w+(#\d+)?|call\(std::vector::begin\))\))(\.|->)_pos$', 'REG._pos', a)
     a = re.sub(r'^this->_pos$', 'POS', a)
     return a
 
@@ -117,21 +128,30 @@ def window_agreement(ctx, db):
                    'get_value_lk reads index (_pos - reg._pos) + k_r and reports end when the index is >= size: k_w - k_r must be exactly 1 (index < retained length for a subscriber '
                    'that has not fallen behind the maximum)', floor=1)
     w = None; r = None; wf = rf = None
+    def _lf(p):
+        try:
+            return linform(p or '', _canon)
+        except ValueError:
+            return None
+    H = htracer(db)
     for f in db.need('cocls::publisher::queue::push_lk')[:1]:
         wf = f
-        for e in f.events():
-            if e.k == 'call' and norm(e.get('callee')) == 'std::max':
-                for a in e.get('args', []):
-                    lf_ = linform(a.get('path') or '', _canon)
-                    if lf_ and lf_.get('POS') == 1 and lf_.get('REG._pos') == -1:
-                        w = lf_
+        for tr in H.traces(f):
+            for e in tr:
+                if e.k == 'call' and norm(e.get('callee')) == 'std::max':
+                    for a in e.get('args', []):
+                        lf_ = _lf(a.get('path'))
+                        if lf_ and lf_.get('POS') == 1 and lf_.get('REG._pos') == -1:
+                            w = lf_
     for f in db.need('cocls::publisher::queue::get_value_lk')[:1]:
         rf = f
-        for e in f.events():
-            if e.k == 'decl' and e.get('init'):
-                lf_ = linform(e['init'], _canon)
-                if lf_ and lf_.get('POS') == 1 and lf_.get('REG._pos') == -1:
-                    r = lf_ if r is None or lf_.get('', 0) == r.get('', 0) else 'conflict'
+        for tr in H.traces(f):
+            for e in tr:
+                p_ = e.get('init') if e.k == 'decl' else (e.get('path') if e.k == 'return' and e.get('depth', 0) > 0 else None)
+                if p_:
+                    lf_ = _lf(p_)
+                    if lf_ and lf_.get('POS') == 1 and lf_.get('REG._pos') == -1:
+                        r = lf_ if r is None or r == 'conflict' or lf_.get('', 0) == r.get('', 0) else 'conflict'
     if w is None or r is None:
         raise Broken('retained-window expression (push_lk: %s) or index expression (get_value_lk: %s) not recognised as _pos - reg._pos + k' % (w, r))
     ok = r != 'conflict' and (w.get('', 0) - r.get('', 0) == 1)
@@ -153,7 +173,7 @@ def slot_reinit(ctx, db):
     if not fns:
         raise Broken('anchor vanished: subscribe_lk(sub, pos)')
     f = fns[0]
-    T = Tracer(db, depth=0)
+    T = htracer(db)
     trs = [t for t in T.traces(f) if live(t)]
     ctx.paths(rid, len(trs))
     bad = None; nre = nfresh = 0
@@ -173,19 +193,42 @@ def slot_reinit(ctx, db):
 
 
 def wake_outside_lock(ctx, db):
-    rid = ctx.rule('C16.wake-outside-lock', 'LOCKSET', 'push_lk and kick_lk resume parked awaiters (user code) only after lk.unlock(); push_lk re-locks before it touches the wake-up buffer again', floor=2)
-    la = locks.LockAnalysis(db, GUARDED)
+    rid = ctx.rule('C16.wake-outside-lock', 'LOCKSET', 'push_lk and kick_lk (helpers of the class expanded in place) resume parked awaiters (user code) only after lk.unlock(); push_lk re-locks '
+                   'before it touches the wake-up buffer again', floor=2)
+    H = htracer(db, maxvisit=2)
+    WB = 'cocls::publisher::queue::_wakeup_buffer'
     for name in ('cocls::publisher::queue::push_lk', 'cocls::publisher::queue::kick_lk'):
         for f in db.need(name)[:1]:
-            held = la.held_map(f)
-            rs = [e for e in f.events() if e.k == 'call' and norm(e.get('callee')) == 'cocls::awaiter::resume']
-            if not rs:
+            trs = H.traces(f)
+            ctx.paths(rid, len(trs))
+            entry = entry_locks(f)
+            sites = {}; nres = 0
+            for tr in trs:
+                ls = trace_lockset(tr)
+                # the caller's lock (unique_lock& parameter) is held on entry
+                rel = set()
+                for i, it in enumerate(tr):
+                    if it.k == 'call' and norm(it.get('callee')) == 'std::unique_lock::unlock' and it.get('recv') in entry:
+                        rel.add(it.get('recv'))
+                    if it.k == 'call' and norm(it.get('callee')) == 'std::unique_lock::lock' and it.get('recv') in entry:
+                        rel.discard(it.get('recv'))
+                    locked = bool(ls[i]) or bool(entry - rel)
+                    if it.k == 'call' and norm(it.get('callee')) == 'cocls::awaiter::resume':
+                        nres += 1
+                        sites.setdefault(('resume', it.get('loc')), True)
+                        if locked:
+                            sites[('resume', it.get('loc'))] = False
+                    if it.k in ('call', 'read', 'write') and norm(it.get('field') or '') == WB and name.endswith('push_lk'):
+                        sites.setdefault(('buffer', it.get('loc')), True)
+                        if not locked:
+                            sites[('buffer', it.get('loc'))] = False
+            if nres == 0:
                 ctx.ob(rid, f, f['key'], False, '%s wakes parked subscribers' % name.split('::')[-1], desc='%s never resumes a parked awaiter' % name)
-            for e in rs:
-                ctx.ob(rid, f, e['loc'], not held.get(e['id']), 'awaiter::resume in %s with no lock held' % name.split('::')[-1], desc='parked subscriber resumed while the publisher lock is held')
-            for e in f.events():
-                if e.k in ('call', 'read', 'write') and norm(e.get('field') or '') == 'cocls::publisher::queue::_wakeup_buffer':
-                    ctx.ob(rid, f, e['loc'], bool(held.get(e['id'])), 'the wake-up buffer is touched under the lock', desc='_wakeup_buffer touched without the lock in ' + name)
+            for (kind, loc), ok in sorted(sites.items()):
+                if kind == 'resume':
+                    ctx.ob(rid, f, loc, ok, 'awaiter::resume in %s with no lock held' % name.split('::')[-1], desc='parked subscriber resumed while the publisher lock is held')
+                else:
+                    ctx.ob(rid, f, loc, ok, 'the wake-up buffer is touched under the lock', desc='_wakeup_buffer touched without the lock in ' + name)
 
 
 def close_wakes_all(ctx, db):
@@ -220,8 +263,9 @@ def close_wakes_all(ctx, db):
         trs = [t for t in T.traces(f) if live(t)]
         ctx.paths(rid, len(trs))
         bad = None
-        evl = list(f.events())
-        if any(b.get('term') in ('BreakStmt', 'ReturnStmt') for b in f['blocks']) or any(e.k == 'return' and not e.get('co') for e in evl[:-1] if False):
+        bodies = helper_bodies(db, f)
+        evl = [e for g in bodies for e in g.events()]
+        if any(b.get('term') in ('BreakStmt',) for g in bodies for b in g['blocks']) or any(b.get('term') == 'ReturnStmt' for b in f['blocks']):
             bad = ('the walk over the registrations can exit early', [])
         for tr in trs:
             col = [it for it in tr if it.k == 'call' and norm(it.get('field') or '') == 'cocls::publisher::queue::_wakeup_buffer' and norm(it.get('callee') or '').split('::')[-1] in ('push_back', 'emplace_back')]
@@ -230,7 +274,7 @@ def close_wakes_all(ctx, db):
             if seen_awt and (not col or not clr):
                 bad = bad or ('a parked awaiter of a used registration is not collected and cleared', tr)
             used_false_collect = False
-        loops = [b for b in f['blocks'] if (b.get('cond') or {}).get('term') in ('CXXForRangeStmt', 'ForStmt', 'WhileStmt')]
+        loops = [b for g in bodies for b in g['blocks'] if (b.get('cond') or {}).get('term') in ('CXXForRangeStmt', 'ForStmt', 'WhileStmt')]
         if len(loops) < 2:
             bad = bad or ('push_lk lost its collect / resume loops', [])
         rs = [e for e in evl if e.k == 'call' and norm(e.get('callee')) == 'cocls::awaiter::resume']
@@ -246,12 +290,14 @@ def close_wakes_all(ctx, db):
             k = [it for it in tr if it.k == 'write' and (it.get('path') or '').endswith('_kicked') and it.get('const') == 1]
             rs = [c for c in calls(tr) if norm(c.get('callee')) == 'cocls::awaiter::resume']
             nn = None
-            for it in tr:
-                if it.k == 'branch' and nullness(it) and nullness(it)[0] in ('local:awt',):
-                    nn = nullness(it)[1]
+            woken = {c.get('recv') for c in rs} | {it.get('var') for it in tr if it.k == 'decl' and 'awaiter *' in (it.get('type') or '')}
+            for i, it in enumerate(tr):
+                nt = null_test(tr, i) if it.k == 'branch' else None
+                if nt and nt[0] in woken:
+                    nn = nt[1]
             if k:
                 n += 1
-                if not any(it.k == 'write' and (it.get('path') or '').endswith('_awt') and it.get('const') == 0 for it in tr):
+                if not any(null_store(it, '_awt') for it in tr):
                     bad = bad or ('the kicked registration keeps its parked awaiter', tr)
             if nn is True and len(rs) != 1:
                 bad = bad or ('a parked subscriber is not woken when kicked', tr)
@@ -267,7 +313,7 @@ def close_wakes_all(ctx, db):
             if f['key'] in seen:
                 continue
             seen.add(f['key'])
-            n = sum(1 for e in f.events() if e.k == 'call' and norm(e.get('callee')) == 'cocls::publisher::queue::push_lk')
+            n = sum(1 for g in helper_bodies(db, f) for e in g.events() if e.k == 'call' and norm(e.get('callee')) == 'cocls::publisher::queue::push_lk')
             ctx.ob(rid, f, f['key'], n == 1, 'publish overload goes through push_lk', desc='a publish overload bypasses push_lk')
     for name in ('cocls::publisher::~publisher', 'cocls::publisher::close'):
         for f in db.need(name)[:1]:
